@@ -1,3 +1,5 @@
+//go:build kvh_all || kvh_c11
+
 package all
 
 import _ "kvh/engines/c11"
